@@ -16,6 +16,14 @@ LEMMAS = {}       # name -> Contract (ghost programs under /verif/spec)
 PROPS = {}        # property id -> list of (kind, name)
 AXIOMS = []       # (name, text, note): ASSUMED facts about opaque spec functions, listed in every evidence file that uses them
 PROP_RUNNERS = {} # property id -> [callable(tier, seed) -> {'coverage':..., 'violations': [...], 'lines': [...]}]
+NATIVE_HELPERS = {}   # plain python helpers usable in native_only clauses
+
+
+def native_helper(f):
+    NATIVE_HELPERS[f.__name__] = f
+    return f
+
+
 PROP_LEVEL = {}   # property id -> evidence level ('proof' default)
 PROP_NOTES = {}
 PROP_ASSUMPTIONS = {}
@@ -65,6 +73,7 @@ class Contract:
         self.decreases_expr = None
         self.interface_flag = False
         self.raise_effects = []
+        self.defines_expr = None    # pure method: result == this expression (becomes the defining axiom of the interface UF for this class, on reveal)
         self.raise_ensures_l = []    # (name, expr): hold when the function exits by an exception
         self.raise_msgs = {}
         self.keeps_epoch = False    # modifies nothing a matcher / message text depends on (checked when the body is verified)
@@ -106,6 +115,10 @@ class Contract:
         (self.ghost_entry if at == 'entry' else self.ghost_exit).append(code); return self
     def prop(self, *ids):
         self.props.update(ids); return self
+    def defines(self, e):
+        self.defines_expr = e
+        self.ensures('result == (%s)' % e, 'definition')
+        return self
     def on_raise_effect(self, code):
         self.raise_effects.append(code); self.raise_keeps_heap = False; return self
     def on_raise_ensures(self, e, name=None):
